@@ -15,6 +15,18 @@ Proof.
 Qed.
 Print Assumptions C14_inplace_refuted.
 
+(* F14g (repaired): Experiment._store_extracted_input_ids / _store_additional_input_data /
+   _store_extracted_measured_properties wrote output/input-ids.json, additional_input_data.json and
+   properties.csv in place: an I/O error (or death) in the middle leaves a truncated document. *)
+Theorem C14_interface_inplace_refuted : exists cs old f,
+  let s := [("input-ids.json", old)] in
+  let after := read "input-ids.json" (run (exec (file_update_pinned "input-ids.json" cs) true f) s) in
+  after = Some "[" /\ after <> Some old /\ after <> Some (concat_str cs).
+Proof.
+  exists ["["; """mol-0"""; "]"], "[]", (EIO 2 0). cbn. repeat split; discriminate.
+Qed.
+Print Assumptions C14_interface_inplace_refuted.
+
 (* F14e (repaired): the pinned try_generate_status_details renamed the temporary file over
    status_details.json even when writing it had raised an I/O error. *)
 Theorem C14_details_ioerror_refuted : exists cs old f,
@@ -37,23 +49,37 @@ Proof.
     + repeat constructor; cbn; intuition discriminate.
     + left. reflexivity.
     + intros k v H. cbn in H. destruct H as [H|[H|[]]]; inversion H; subst; split; try reflexivity;
-        split; try reflexivity; intros N; try reflexivity; exfalso; apply N; reflexivity.
+        intros N; try (split; reflexivity); exfalso; apply N; reflexivity.
   - reflexivity.
   - vm_compute. discriminate.
 Qed.
 Print Assumptions C14_history_refuted.
 
-(* F14c, F14d (open): outside the guard of C14_codec_roundtrip the file does not read back what was
-   written: outer white space of a value (also of error-description) is stripped, and a line break in a
-   value other than error-description starts a new line that is read as another key. *)
+(* F14c (repaired for error-description): the pinned loader let Status.__init__ strip() the un-escaped error
+   description, so a description ending in a line break (a traceback) was read back without it; the repaired
+   loader reads it back exactly. *)
+Theorem C14_description_stripped_refuted : exists d v,
+  lookup ED d = Some v /\
+  option_map (lookup ED) (status_parse_pinned (status_print d)) = Some (Some "boom") /\
+  Some v <> Some "boom" /\
+  option_map (lookup ED) (status_parse (status_print d)) = Some (Some v).
+Proof.
+  exists [("stages", "['stage0']"); (ED, String "b" (String "o" (String "o" (String "m" (String nl "")))))].
+  eexists. split; [reflexivity|]. split; [reflexivity|]. split; [discriminate|reflexivity].
+Qed.
+Print Assumptions C14_description_stripped_refuted.
+
+(* F14d (open): the guard that C14_codec_roundtrip keeps for the values OTHER than error-description is
+   necessary: such a value is written verbatim, so its outer white space is stripped by the loader, and a
+   line break in it starts a new line that is read as another key. *)
 Theorem C14_codec_guard_refuted :
-  (exists d, lookup ED d = Some (String "b" (String nl "")) /\
-             option_map (lookup ED) (status_parse (status_print d)) = Some (Some "b")) /\
+  (exists d, lookup "exit-status" d = Some " x" /\
+             option_map (lookup "exit-status") (status_parse (status_print d)) = Some (Some "x")) /\
   (exists d, lookup "cost" d = Some "0" /\
              option_map (lookup "cost") (status_parse (status_print d)) = Some (Some "99")).
 Proof.
   split.
-  - exists [("stages", "[]"); (ED, String "b" (String nl ""))]. split; reflexivity.
+  - exists [("stages", "[]"); ("exit-status", " x")]. split; reflexivity.
   - exists [("stages", "['stage0']"); ("cost", "0"); ("exit-status", String "x" (String nl "cost=99"))]. split; reflexivity.
 Qed.
 Print Assumptions C14_codec_guard_refuted.
